@@ -516,7 +516,16 @@ func (e *emitter) roundedOK(op string, exact, got *big.Rat, r rep, x, y *operand
 	}
 }
 
+// guard turns a panic of the implementation (or of math/big working on an operand the implementation corrupted)
+// into a monitor violation for the inputs at hand.
+func (e *emitter) guard(op string, xs ...*operand) {
+	if r := recover(); r != nil {
+		e.violate("operation-panicked", fmt.Sprintf("types/math panicked, or left an operand in a state on which math/big panics: %v", r), in(op, xs...))
+	}
+}
+
 func (e *emitter) binary(x, y *operand, emitMask func(string) bool) {
+	defer e.guard("binary operations", x, y)
 	sum := new(big.Rat).Add(x.val, y.val)
 	dif := new(big.Rat).Sub(x.val, y.val)
 	prod := new(big.Rat).Mul(x.val, y.val)
@@ -650,6 +659,7 @@ func (e *emitter) stringChecks(what string, d rmath.Dec, v *big.Rat) {
 var two256 = new(big.Int).Lsh(big.NewInt(1), 256)
 
 func (e *emitter) unary(x *operand, emitMask func(string) bool) {
+	defer e.guard("unary operations", x)
 	s1 := []string{x.s}
 	e.monChecks++
 	// predicates
